@@ -62,6 +62,8 @@ impl Prop for C15 {
         for i in 0..(if th { 4 } else { 1 }) { v.push(case(&[("kind", "text".into()), ("seed", (rng.next() ^ i).to_string())])); }
         // passwords are byte strings: through --env-pass the variable's bytes are the password, or the run is an error — never a look-alike
         v.push(case(&[("kind", "env-bytes".into()), ("seed", rng.next().to_string())]));
+        // every command of the tool that takes a locked key refuses an altered one — also `change-pass` to the password just typed
+        for _ in 0..(if th { 6 } else { 2 }) { v.push(case(&[("kind", "cli-tamper".into()), ("seed", rng.next().to_string())])); }
         // the two HMAC key-normalisation collisions (RFC 2104): a known finding, reproduced on every run
         v.push(case(&[("kind", "wrongpw".into()), ("pwi", "1".into()), ("rel", "nulpad".into()), ("seed", "11".into())]));
         v.push(case(&[("kind", "wrongpw".into()), ("pwi", "5".into()), ("rel", "longhash".into()), ("seed", "12".into())]));
@@ -142,6 +144,26 @@ impl Prop for C15 {
                     if obs.exit == Some(0) { o.oracle_fail = Some(("only-the-locked-string-unlocks".into(), format!("`kestrel key extract-pub` accepts the locked key string with {} and prints a public key", what))); o.impl_obs = format!("exit 0: {}", String::from_utf8_lossy(&obs.stdout).trim()); return o; }
                 }
                 o.impl_obs = format!("{} textual variants of a locked key refused by the library function and by the binary", variants.len()); o.model_obs = "same".into();
+            }
+            "cli-tamper" => {
+                use crate::cli::*;
+                let fx = fixtures(); let mut rng = Rng::new(get(c, "seed").parse().unwrap_or(0));
+                let good = fx.alice.enc_sk.clone(); let pw = fx.alice.pw.to_string();
+                o.nontrivial = Some(format!("cli-tamper/{}", get(c, "seed")));
+                let blob = Base64::decode_to_vec(&good, None).unwrap();
+                let mut variants: Vec<(String, String, String)> = vec![];      // (what, key string, password)
+                for pos in [0usize, 3, 4 + rng.below(32), 4 + rng.below(32), 36 + rng.below(32), 36 + rng.below(32), 68 + rng.below(16), 83] { let mut b = blob.clone(); b[pos] ^= 1 << rng.below(8); variants.push((format!("bit flipped in byte {}", pos), Base64::encode_to_string(&b).unwrap(), pw.clone())); }
+                variants.push(("a different password".into(), good.clone(), format!("{}x", pw)));
+                variants.push(("the empty password".into(), good.clone(), String::new()));
+                for (what, key, p) in &variants {
+                    let x = run_kestrel(&World { files: vec![], env: vec![("KESTREL_PASSWORD".into(), p.clone())], stdin: vec![] }, &sv(&["key", "extract-pub", key, "--env-pass"])); o.validated += 1;
+                    if x.exit != Some(1) || !x.stdout.is_empty() { o.oracle_fail = Some(("tamper-evident".into(), format!("`kestrel key extract-pub` on a locked key with {}: exit {:?}, printed {:?}", what, x.exit, String::from_utf8_lossy(&x.stdout).trim()))); return o; }
+                    for newpw in [p.clone(), "another".to_string()] {
+                        let y = run_kestrel(&World { files: vec![], env: vec![("KESTREL_PASSWORD".into(), p.clone()), ("KESTREL_NEW_PASSWORD".into(), newpw.clone())], stdin: vec![] }, &sv(&["key", "change-pass", key, "--env-pass"])); o.validated += 1;
+                        if y.exit != Some(1) || !y.stdout.is_empty() { o.oracle_fail = Some(("tamper-evident".into(), format!("`kestrel key change-pass` on a locked key with {} (new password {}): exit {:?}, printed {:?} — a string that does not unlock was accepted and handed back as a good key", what, if newpw == *p { "the same as the old one" } else { "different" }, y.exit, String::from_utf8_lossy(&y.stdout).trim().chars().take(40).collect::<String>()))); return o; }
+                    }
+                }
+                o.impl_obs = format!("{} altered keys / wrong passwords refused by extract-pub and change-pass", variants.len()); o.model_obs = "unlock fails".into();
             }
             "env-bytes" => {
                 use crate::cli::*;
